@@ -22,7 +22,7 @@ AGG_OPS = ('Sum', 'Min', 'Max', 'Count', '+', 'List', 'Set', 'ArgMin', 'ArgMax',
            'ArgMax2', 'ArgMax3')
 if EXCLUDE_EMPTY_COUNT:
     AGG_OPS = tuple(o for o in AGG_OPS if o != 'Count')
-OPTS = dict(p_colnames=0.0, p_head_perm=0.2, p_neg=0.3, p_agg=0.45, p_distinct=0.5, p_sibling_reuse=0.7,
+OPTS = dict(p_colnames=0.0, p_head_perm=0.2, p_spread_edb=0.4, p_neg=0.3, p_agg=0.45, p_distinct=0.5, p_sibling_reuse=0.7,
             p_feed_sibling=0.7, p_multi_combine=0.3, p_null_fact=0.06, p_or=0.15, p_fcall=0.05,
             agg_ops=AGG_OPS,
             pred_agg_ops_n=('Sum', 'Min', 'Max', 'Count', '+', 'List', 'Set', 'ArgMin',
